@@ -209,7 +209,9 @@ def run(ctx):
                 pos = a8.posonlyargs + a8.args
                 pairs = list(zip(pos[len(pos) - len(a8.defaults):], a8.defaults)) + [(k_, d_) for k_, d_ in zip(a8.kwonlyargs, a8.kw_defaults) if d_ is not None]
                 for arg_, dflt in pairs:
-                    if not _mutable_literal(dflt):
+                    mut_ctor = isinstance(dflt, ast.Call) and txt(dflt.func).split(".")[-1] in (
+                        "Graph", "DiGraph", "MultiGraph", "MultiDiGraph", "defaultdict", "Counter", "OrderedDict", "deque", "bytearray", "zeros", "ones", "empty", "array", "Network", "LightWeightEdgeList")
+                    if not _mutable_literal(dflt) and not mut_ctor:
                         continue
                     nm8 = arg_.arg
                     sc8 = Scope(f8.node)
@@ -232,6 +234,88 @@ def run(ctx):
                         found = True
                         o.violated(f8, how[0], f"S8: the mutable default `{nm8}={txt(dflt)}` of `{f8.qualname}` is {how[1]}: the one default object is shared by every call / object that "
                                                "does not pass the argument, so what one of them puts in is seen by the next", shape_free=True)
+            # ---- S9: a one-shot iterator bound to a name and traversed twice.  itertools producers, map / zip / filter and generator
+            # expressions can be walked ONCE: a second traversal sees nothing, and two consumers fed from the same object
+            # (`zip(it, map(f, it))`) take turns.  (`iter(x)` followed by `next` is the deliberate use of that and is not reported.)
+            ONE_SHOT = {"map", "zip", "filter", "product", "itertools.product", "combinations", "itertools.combinations", "permutations", "itertools.permutations",
+                        "chain", "itertools.chain", "chain.from_iterable", "itertools.chain.from_iterable", "starmap", "itertools.starmap", "accumulate", "itertools.accumulate",
+                        "pairwise", "itertools.pairwise", "batched", "itertools.batched", "islice", "itertools.islice", "zip_longest", "itertools.zip_longest", "enumerate", "reversed"}
+            for f9 in [f_ for f_ in prog.all_functions() if f_.module is mi]:
+                sc9 = Scope(f9.node)
+                par9 = astx.Parents(f9.node)
+                for nm9, sites in sc9.assigns.items():
+                    if len(sites) != 1 or not isinstance(sites[0], ast.Assign) or nm9 in f9.params:
+                        continue
+                    v9 = sites[0].value
+                    if not (isinstance(v9, ast.GeneratorExp) or (isinstance(v9, ast.Call) and txt(v9.func) in ONE_SHOT)):
+                        continue
+                    if par9.loops_of(sites[0]):
+                        continue        # re-created per iteration: each object is traversed in its own iteration
+                    reads = [n for n in astx.walk_fn(f9.node) if isinstance(n, ast.Name) and n.id == nm9 and isinstance(n.ctx, ast.Load)]
+                    consuming = []
+                    for r9 in reads:
+                        p9 = par9.parent(r9)
+                        if isinstance(p9, (ast.For, ast.comprehension)) and p9.iter is r9:
+                            consuming.append(r9)
+                        elif isinstance(p9, ast.Call) and r9 in p9.args and txt(p9.func) not in ("next", "isinstance", "id", "type", "iter"):
+                            consuming.append(r9)
+                        elif isinstance(p9, ast.Starred):
+                            consuming.append(r9)
+                    in_loop = [r9 for r9 in consuming if par9.loops_of(r9)]
+                    if len(consuming) >= 2 or in_loop:
+                        found = True
+                        where = consuming[1] if len(consuming) >= 2 else in_loop[0]
+                        o.violated(f9, par9.stmt_of(where) or where, f"S9: `{nm9} = {txt(v9)[:50]}` is a one-shot iterator, and it is traversed " +
+                                   ("more than once" if len(consuming) >= 2 else "inside a loop (again on every iteration)") +
+                                   ": after the first pass it is exhausted (or two consumers of the same object take turns) - the later traversal sees nothing / half of the items", shape_free=True)
+            # ---- S10: `copy.copy(G)` of a networkx graph is SHALLOW - the new object shares the adjacency and node dictionaries with
+            # the original, so removing / adding edges on the "copy" edits the caller's graph (G.copy() and copy.deepcopy do not)
+            GRAPH_MUT = {"remove_edge", "remove_edges_from", "add_edge", "add_edges_from", "remove_node", "remove_nodes_from", "add_node", "add_nodes_from", "clear", "clear_edges", "update"}
+            for f10 in [f_ for f_ in prog.all_functions() if f_.module is mi]:
+                sc10 = Scope(f10.node)
+                for nm10, sites in sc10.assigns.items():
+                    for st10 in sites:
+                        v10 = getattr(st10, "value", None)
+                        if not (isinstance(v10, ast.Call) and len(v10.args) == 1 and (txt(v10.func) == "copy.copy" or prog.external(mi, v10.func) == "copy.copy")):
+                            continue
+                        muts = [n for n in astx.walk_fn(f10.node) if isinstance(n, ast.Call) and isinstance(n.func, ast.Attribute) and n.func.attr in GRAPH_MUT and txt(n.func.value) == nm10]
+                        if muts:
+                            found = True
+                            o.violated(f10, st10, f"S10: `{txt(st10)}` is a SHALLOW copy (it shares the adjacency dictionaries of `{txt(v10.args[0])}`), and `{txt(muts[0])[:50]}` then edits it: "
+                                                  "the caller's graph is modified as well", shape_free=True)
+            # ---- S11: `dict.fromkeys(keys, [])` gives every key the SAME list / dict / set object; S12: an augmented assignment to the loop
+            # variable of `for k, v in d.items(): v *= s` re-binds a local (numbers are immutable) and leaves the container as it was
+            for f11 in [f_ for f_ in prog.all_functions() if f_.module is mi]:
+                sc11 = Scope(f11.node)
+                for nm11, sites in sc11.assigns.items():
+                    for st11 in sites:
+                        v11 = getattr(st11, "value", None)
+                        if isinstance(v11, ast.Call) and txt(v11.func) in ("dict.fromkeys", "OrderedDict.fromkeys", "defaultdict.fromkeys") and len(v11.args) == 2 and _mutable_literal(v11.args[1]):
+                            muts = [n for n in astx.walk_fn(f11.node) if isinstance(n, ast.Call) and isinstance(n.func, ast.Attribute) and n.func.attr in astx.MUTATOR_METHODS
+                                    and isinstance(n.func.value, (ast.Subscript, ast.Call)) and astx.root_name(n.func.value) == nm11]
+                            via = [n for n in astx.walk_fn(f11.node) if isinstance(n, ast.Call) and isinstance(n.func, ast.Attribute) and n.func.attr in astx.MUTATOR_METHODS
+                                   and isinstance(n.func.value, ast.Name) and any(
+                                       (isinstance(getattr(d_, "value", None), ast.Subscript) and astx.root_name(d_.value) == nm11)
+                                       or (isinstance(getattr(d_, "value", None), ast.Call) and isinstance(d_.value.func, ast.Attribute) and d_.value.func.attr in ("get", "setdefault", "pop")
+                                           and isinstance(d_.value.func.value, ast.Name) and d_.value.func.value.id == nm11)
+                                       for d_ in sc11.assigns.get(n.func.value.id, []))]
+                            if muts or via:
+                                found = True
+                                o.violated(f11, st11, f"S11: `{txt(st11)[:70]}` binds EVERY key to one and the same `{txt(v11.args[1])}` object, and `{txt((muts or via)[0])[:50]}` then fills it: "
+                                                      "what is stored under one key shows up under all of them", shape_free=True)
+                            else:
+                                o.undecided(f"`{txt(st11)[:60]}`: one mutable object shared by all keys (not seen to be modified)", f11, st11)
+                for lp in [n for n in astx.walk_fn(f11.node) if isinstance(n, ast.For)]:
+                    tnames = astx.names_in(lp.target)
+                    body = [s_ for s_ in lp.body if not (isinstance(s_, ast.Expr) and isinstance(s_.value, ast.Constant))]
+                    if len(body) == 1 and isinstance(body[0], ast.AugAssign) and isinstance(body[0].target, ast.Name) and body[0].target.id in tnames and not lp.orelse:
+                        nm12 = body[0].target.id
+                        later = [n for n in astx.walk_fn(f11.node) if isinstance(n, ast.Name) and n.id == nm12 and isinstance(n.ctx, ast.Load)
+                                 and getattr(n, "lineno", 0) > getattr(lp, "end_lineno", lp.lineno)]
+                        if not later and not astx.names_in(body[0].value) & {nm12}:
+                            found = True
+                            o.violated(f11, body[0], f"S12: `{txt(body[0])}` re-binds the loop variable `{nm12}` and nothing else: the elements of `{txt(lp.iter)[:40]}` are never updated "
+                                                     "(numbers are immutable - the loop has no effect)", shape_free=True)
             # ---- S2 / S3 on every function of the module
             funcs = [f for f in prog.all_functions() if f.module is mi]
             memo_tables = set()
